@@ -260,7 +260,7 @@ class C19Check:
               "order": [["connect", 0], ["park", 0], ["stop"], ["disc", 0, "abort"]]}]
 
     def families(self, tier):
-        return [("known", len(self.KNOWN)), ("random", 160 if tier == "quick" else 3000)]
+        return [("known", len(self.KNOWN)), ("random", 480 if tier == "quick" else 6000)]
 
     def floors(self, tier):
         return scaled_floors("C19", ["C19.handshakes", "C19.probe_ok", "C19.stopped", "C19.cli_ok", "C19.started.tcp", "C19.started.unix", "C19.disconnect.abort",
@@ -276,7 +276,7 @@ class C19Check:
         if fam == "known":
             import copy
 
-            return copy.deepcopy(self.KNOWN[i])
+            return copy.deepcopy(self.KNOWN[i % len(self.KNOWN)])
         return c19.gen_scenario(random.Random(f"{seed}:C19:{i}"))
 
     def run_case(self, case, verbose=False):
